@@ -143,6 +143,34 @@ def evaluate_identify(model: Model):
     return f, ev, ident, paths
 
 
+def quantifier_of(rets: list) -> Term | None:
+    """A boolean function written as a search loop  `for y in S: if not c(y): return False` / `return True`  is  all(c(y) for y in S)
+    (dually any).  Returns the quantified term, or None when the return paths are not of that form."""
+    from ..terms import FALSE, TRUE
+    if len(rets) == 1:
+        return rets[0].value
+    if len(rets) != 2:
+        return None
+    by_val = {p.value: p for p in rets}
+    pt, pf = by_val.get(TRUE), by_val.get(FALSE)
+    if pt is None or pf is None:
+        return None
+    for early, late, q in ((pf, pt, "all"), (pt, pf, "any")):
+        ie = [c for c in early.conds if c[0] == "iter-elem"]
+        fa = [c for c in late.conds if c[0] == "forall-not"]
+        if len(ie) != 1 or len(fa) != 1:
+            continue
+        pat, it = ie[0][1], ie[0][2]
+        body = [c for c in early.conds[early.conds.index(ie[0]) + 1:]]
+        if fa[0][2] != it or len(body) != 1:
+            continue
+        c = body[0]
+        if q == "all":
+            c = c[1] if c[0] == "not" else ("not", c)
+        return (q, ("comp", "gen", c, ((pat, it, ()),)))
+    return None
+
+
 def witness_normalise(p: Path) -> Path:
     """`L = [d for d in D if c(d)]; if not L: <fail>; d = L[0]; ...`  is the search loop  `for d in D: if c(d): ...`:
     a guard `nonempty(L)` together with uses of L[0] becomes a witness `d ∈ D, c(d)`; a guard `not L` becomes `no d ∈ D has c(d)`."""
@@ -154,6 +182,24 @@ def witness_normalise(p: Path) -> Path:
     for i, c in enumerate(list(conds)):
         neg = c[0] == "not"
         core = c[1] if neg else c
+        if core[0] == "isnone" and core[1][0] == "call" and core[1][1] == "next" and len(core[1][2]) == 2 and core[1][2][1] == NONE:
+            # z = next((x for x in S if c(x)), None); `z is None` = no x in S has c(x); otherwise z is a witness
+            nx_ = core[1]
+            src = nx_[2][0]
+            while src[0] == "call" and src[1] in ("iter", "list", "tuple") and len(src[2]) == 1:
+                src = src[2][0]
+            if src[0] == "comp" and len(src[3]) == 1 and src[2] == src[3][0][0] and src[3][0][0][0] == "var":
+                pat, it, cs = src[3][0]
+                if not neg:
+                    conds[i] = ("forall-not", pat, it, tuple(cs))
+                else:
+                    m = {nx_: pat}
+                    conds[i] = ("iter-elem", pat, it)
+                    conds[i + 1:i + 1] = list(cs)
+                    conds = [_subst(x, m) for x in conds]
+                    value = _subst(value, m)
+                changed = True
+            continue
         if core[0] != "truth":
             continue
         L = core[1]
